@@ -302,7 +302,7 @@ WHERE2 = [['where2', ['family', [2], 'eq'], ['lr', [1], 'eq']], ['where2', ['lr'
           ['where2', ['learner_id', [2], 'eq'], ['lr', [1], 'eq']], ['where2', ['lr', [1], 'eq'], ['learner_id', [2], 'eq']],
           ['where2', ['learner_id', [1], 'eq'], ['family', [0], 'eq']],
           ['where2', ['data_id', [2], 'eq'], ['seed', [1], 'eq']], ['where2', ['seed', [1], 'eq'], ['data_id', [2], 'eq']],
-          ['where2', ['shape', [2], 'eq'], ['seed', [1], 'eq']], ['where2', ['environment_id', [2], 'eq'], ['seed', [1], 'eq']],
+          ['where2', ['environment_id', [2], 'eq'], ['data_id', [1], 'eq']], ['where2', ['environment_id', [2], 'eq'], ['seed', [1], 'eq']],
           ['where2', ['environment_id', [1], 'eq'], ['data_id', [0], 'eq']]]
 # keywords on interaction columns: single rows survive, whole triples disappear
 WHEREI = [['wherer', [[0, 0, 0], [0, 1, 0]], 'in'], ['wherer', [[0, 0, 0], [1, 0, 0]], 'in'], ['wherer', [[0, 0, 0]], 'eq'],
@@ -446,7 +446,7 @@ class C18(Check):
         'raw_learners on a Result in which nothing survives may raise or return an empty table; cells without data must hold no finite value',
         'where / where_best are only intermediate steps: where must select exactly the interaction rows of the matching rows (several keywords on one table: union, as documented; keywords on different tables are not used) and stay forward-consistent without repeated parameter rows (unreferenced rows after where alone are not judged); the output of where_best is taken as it is (only forward consistency and unaltered cells are demanded), where_best(p=None) and exceptions of where_best are not judged',
         'moving_average: weights are positive; weights="exp" with span=None is undefined (an exception is accepted); comparison of averages with relative tolerance 1e-9 against exact rationals',
-        'x=["index"] (list form), Missing parameter values (ragged parameter tables), unhashable values, column names present in two tables, plotting and raw_contrast are outside the alphabet',
+        'where(col=<tuple>) (a tuple argument means membership), x=["index"] (list form), Missing parameter values (ragged parameter tables), unhashable values, column names present in two tables, plotting and raw_contrast are outside the alphabet',
     ]
     TECHNIQUE = 'bounded-exhaustive enumeration of Results (all presence x length patterns) x an operation alphabet on the real Result/Table code vs. a naive recomputation from the interaction rows; exact rational textbook moving averages'
     LEVEL_TEXT = ('Every Result up to 2x2x2 / 2x3x1 evaluation triples (thorough up to 3x3x1 / 3x2x2) with every presence and length pattern is filtered by the real '
@@ -704,7 +704,7 @@ class C18(Check):
         except Exception as ex:     # noqa
             return ('exc', type(ex).__name__)
 
-    def simplify_key(self, M, fl, step, rec, before, ctx):
+    def simplify_key(self, M, fl, step, rec, before, ctx, exempt=None):
         """Greedy: the simplest arguments of the failing step that still fail in the same mode name the key (a stable,
         minimal discriminating feature, so that one root cause does not fan out over unrelated argument kinds)."""
         k0, w0 = rec.violations[before]
@@ -716,7 +716,7 @@ class C18(Check):
         def run(trial):
             r = _Rec()
             if raw: self.do_raw(fresh(), M, trial, r, ctx)
-            else: self.do_step(fresh(), M, trial, fl, r, ctx)
+            else: self.do_step(fresh(), M, trial, fl, r, ctx, exempt)
             return r.violations[0][0] if r.violations and r.violations[0][0].split('|')[1] == mode else None
 
         if raw:
@@ -728,7 +728,6 @@ class C18(Check):
             trial = list(simple)
             for pos, v in c.items(): trial[pos] = v
             if trial == simple: continue
-            if not raw and not (trial[1] or trial[2] or trial[3]): continue            # a no-op call
             if not raw and len(c) == 1 and any(pos in (2, 3) and simple[pos] is None for pos in c): continue      # never turns an omitted l / p into a given one
             k = run(trial)
             if k: simple, key = trial, k
@@ -769,7 +768,7 @@ class C18(Check):
             if r3.violations:
                 rec.violations[before:] = [(r3.violations[0][0], w0)]
                 return out, newM
-        self.simplify_key(M, fl, step, rec, before, ctx)
+        self.simplify_key(M, fl, step, rec, before, ctx, exempt)
         return out, newM
 
     # -------------------------------------------------------------- one operation (list of steps) on a fresh Result
